@@ -141,7 +141,7 @@ def run(case, ctx):
         last_state = oP["state"]
         if T is not None:
             np.random.seed(seed)
-            T.update(*[v.copy() if hasattr(v, "copy") else v for v in a])
+            ctx.call(f"C02:{name}:twin_update", T.update, *[v.copy() if hasattr(v, "copy") else v for v in a])
             oT = adapters.observe(T)
             twin_age += 1
             if offset is None:
